@@ -248,6 +248,25 @@ Definition py_format_str (v:pyval) : res := match v with VStr s => Normal (VStr 
 Definition py_list_append (l x:pyval) : res := match l with VList a => Normal (VList (a ++ [x])) | _ => Exc AttributeError end.
 Definition py_list_insert (l i x:pyval) : res :=
   match l, i with VList a, VInt z => let k := clamp (List.length a) (Some z) O in Normal (VList (firstn k a ++ x :: skipn k a)) | _, _ => Exc TypeError end.
+(* str.join over a list / tuple of strings; startswith / endswith; ASCII-only lower / upper (non-ASCII text is outside the modelled subset) *)
+Fixpoint join_strs (sep : list Z) (l : list pyval) : option (list Z) :=
+  match l with
+  | [] => Some []
+  | [VStr x] => Some x
+  | VStr x :: r => match join_strs sep r with Some t => Some (x ++ sep ++ t) | None => None end
+  | _ => None
+  end.
+Definition py_join (sep v:pyval) : res :=
+  match sep with
+  | VStr sp => l <- py_iter v ;; match join_strs sp l with Some t => Normal (VStr t) | None => Exc TypeError end
+  | _ => Exc TypeError end.
+Fixpoint zprefix (p s : list Z) : bool := match p, s with [], _ => true | a :: p', b :: s' => Z.eqb a b && zprefix p' s' | _, _ => false end.
+Definition py_startswith (s p:pyval) : res := match s, p with VStr a, VStr b => Normal (VBool (zprefix b a)) | _, _ => Exc TypeError end.
+Definition py_endswith (s p:pyval) : res := match s, p with VStr a, VStr b => Normal (VBool (zprefix (rev b) (rev a))) | _, _ => Exc TypeError end.
+Definition ascii_only (s : list Z) : bool := forallb (fun c => c <? 128) s.
+Definition py_lower (s:pyval) : res := match s with VStr a => if ascii_only a then Normal (VStr (map (fun c => if (65 <=? c) && (c <=? 90) then c + 32 else c) a)) else Exc Unsupported | _ => Exc AttributeError end.
+Definition py_upper (s:pyval) : res := match s with VStr a => if ascii_only a then Normal (VStr (map (fun c => if (97 <=? c) && (c <=? 122) then c - 32 else c) a)) else Exc Unsupported | _ => Exc AttributeError end.
+
 (* ordering comparisons: integers only (strings etc. are outside the translated subset: TypeError in the model means "not modelled") *)
 Definition py_lt (a b:pyval) : res := match a, b with VInt x, VInt y => Normal (VBool (x <? y)) | _, _ => Exc TypeError end.
 Definition py_le (a b:pyval) : res := match a, b with VInt x, VInt y => Normal (VBool (x <=? y)) | _, _ => Exc TypeError end.
